@@ -7,8 +7,8 @@ rows = []
 for d in sorted(glob.glob('/tmp/seeds/C*/[123]')):
     ID, k = d.split('/')[-2], d.split('/')[-1]
     PROP = re.sub(r'b$', '', ID)
-    if not os.path.exists(d + '/patch.diff'):
-        continue
+    if not os.path.exists(d + '/patch.diff') or not os.path.exists(d + '/verify.txt'):
+        continue  # not there yet, or not confirmed yet
     dst = f'/verif/seeded/{ID}-{k}'
     os.makedirs(dst, exist_ok=True)
     for f in ('patch.diff', 'demo_test.go', 'notes.md'):
